@@ -10,10 +10,26 @@
 //          kind w: "wire=" the real wire_range_deconvolution of a single-wire block holding the signal
 //        nn  = "panic" | <residual> "/" vec ;  vec = <len> ":" i "=" bits "," ... (samples that are not +0.0)
 //        NaN is printed as "nan" whatever its payload.
-// rel17* lines: relations checked on the implementation alone ("holds" / "fails <detail>").
+// rel17* lines: relations checked on the implementation alone ("holds" / "fails <detail>"), except
+//   rel17scale <kind> <k> <want> <exact> <response> <signal>
+//        the tie of the binary64 scale theorems (C17_nn_greedy_scale_f64, C17_ls_deconv_scale_f64) to the runs.
+//        <exact> = 1 iff the REAL routines scale bit for bit under multiplication of every sample by 2^k (every
+//        sweep of the production grid: amplitudes by 2^k, residual by 4^k; and the entry point), computed when the
+//        line is generated.  The MODEL side evaluates the theorems' executable hypothesis (nn_safe / ls_safe) on
+//        the line's waveform, response, grid and k, and answers "violates-theorem" iff it is true and <exact> = 0;
+//        <want> = s (generator class for which the hypothesis must be true: in-domain waveform, |k| <= 20),
+//        u (must be false: |k| > 500), a (either).  The implementation side re-measures <exact> and answers "ok" iff
+//        the field is what the implementation does now.
+//   rel17event <shape> <seed> <k>     event level: avalanches() of a synthetic event and of the event with EVERY
+//        wire and pad sample multiplied by 2^k: same count, same (t, phi, z) bit for bit, both amplitudes * 2^k.
+//   rel17eventscan <shape> <seed>     measurement aid (never generated): the interval of k around 0 on which the
+//        event-level relation holds.
 use crate::util::*;
-use alpha_g_physics::verif;
+use alpha_g_physics::{verif, Avalanche, MainEvent};
 use std::panic::AssertUnwindSafe;
+use uom::si::angle::radian;
+use uom::si::length::meter;
+use uom::si::time::second;
 
 const WIRE_GRID: (usize, usize, usize, usize) = (0, 1, 3, 12);
 const PAD_GRID: (usize, usize, usize, usize) = (3, 5, 7, 12);
@@ -239,10 +255,20 @@ fn rel_prop(kind: &str, signal: &[f64]) -> Result<(), String> {
     Ok(())
 }
 
-/// scaling every sample by 2^k scales every output by exactly 2^k (residual by 4^k), no decision changes
+/// 2^k as a binary64 number (exact for -1022 <= k <= 1023; beyond: 0 or +inf, as powi gives)
+fn pow2(k: i32) -> f64 {
+    if (-1022..=1023).contains(&k) {
+        f64::from_bits(((k + 1023) as u64) << 52)
+    } else {
+        2f64.powi(k)
+    }
+}
+
+/// scaling every sample by 2^k scales every output by exactly 2^k (residual by 4^k), no decision changes.
+/// Err = not exact (with the first place where it is not)
 fn rel_scale(kind: &str, k: i32, signal: &[f64]) -> Result<(), String> {
     let (resp, g) = resp_of(kind);
-    let c = 2f64.powi(k);
+    let c = pow2(k);
     let scaled: Vec<f64> = signal.iter().map(|x| x * c).collect();
     for off in g.0..=g.1 {
         for la in g.2..=g.3 {
@@ -265,6 +291,25 @@ fn rel_scale(kind: &str, k: i32, signal: &[f64]) -> Result<(), String> {
     }
     Ok(())
 }
+fn scale_line(kind: &str, k: i32, want: &str, signal: &[f64]) -> (String, bool) {
+    let exact = rel_scale(kind, k, signal).is_ok();
+    let (resp, _) = resp_of(kind);
+    (format!("rel17scale {kind} {k} {want} {} {} {}", exact as u8, fhex(&resp), fhex(signal)), exact)
+}
+fn observe_scale(kind: &str, k: i32, exact: &str, resp: &[f64], signal: &[f64]) -> String {
+    if (kind != "w" && kind != "p") || (exact != "0" && exact != "1") {
+        return "bad-case-line".into();
+    }
+    if !same_bits(resp, &resp_of(kind).0) {
+        return "response-of-case-line-is-not-the-production-response".into();
+    }
+    match rel_scale(kind, k, signal) {
+        Ok(()) if exact == "1" => "ok".into(),
+        Err(_) if exact == "0" => "ok".into(),
+        Ok(()) => "exact-field-stale: the implementation scales exactly".into(),
+        Err(e) => format!("exact-field-stale: {e}"),
+    }
+}
 
 /// the production routine equals the plain one-sample-at-a-time scheme, bit for bit
 fn rel_plain(kind: &str, signal: &[f64]) -> Result<(), String> {
@@ -286,9 +331,15 @@ fn rel_plain(kind: &str, signal: &[f64]) -> Result<(), String> {
     Ok(())
 }
 
-/// isolated response-shaped pulse of amplitude a at k (k + 18 <= n) on a single-wire block at `wire`
+/// isolated response-shaped pulse of amplitude a at k (k + 18 <= n) on a SINGLE-WIRE block at ring position
+/// `wire` (what the property claims "wherever the wire sits on the ring"; a wire inside a multi-wire block goes
+/// through the cross-talk solve and is covered by rel17block's channel-identity part).
+/// The property's threshold is 1e-6 relative; the level measured on this implementation is 2e-16, so anything
+/// above 1e-12 is already reported (a degradation by four orders of magnitude that the 1e-6 figure would hide).
+const PULSE_PROPERTY_TOL: f64 = 1e-6;
+const PULSE_MEASURED_TOL: f64 = 1e-12;
 fn rel_pulse(wire: usize, n: usize, k: usize, a: f64) -> Result<(), String> {
-    if k + 18 > n || wire >= 256 {
+    if k + 18 > n || wire >= 256 || !(a > 0.0) {
         return Err("bad case".into());
     }
     let resp = verif::wire_response();
@@ -300,22 +351,33 @@ fn rel_pulse(wire: usize, n: usize, k: usize, a: f64) -> Result<(), String> {
     if out.len() != n {
         return Err(format!("length {} for {} samples", out.len(), n));
     }
+    // worst relative deviation: |x - a| / a at k, |x| / a elsewhere
+    let mut worst = 0.0f64;
+    let mut at = 0;
     for (i, x) in out.iter().enumerate() {
-        if i == k {
-            if !((x - a).abs() < 1e-6 * a) {
-                return Err(format!("amplitude at {k}: {x:e} for {a:e}"));
-            }
-        } else if !(x.abs() <= 1e-6 * a) {
-            return Err(format!("residue {x:e} at {i} (pulse {a:e} at {k})"));
+        let e = if i == k { (x - a).abs() / a } else { x.abs() / a };
+        if !(e <= worst) {
+            worst = e;
+            at = i;
         }
+    }
+    if !(worst < PULSE_PROPERTY_TOL) {
+        return Err(format!(
+            "VIOLATES the property's 1e-6: relative deviation {worst:e} at sample {at} (pulse {a:e} at {k}, wire {wire})"
+        ));
+    }
+    if !(worst <= PULSE_MEASURED_TOL) {
+        return Err(format!(
+            "relative deviation {worst:e} at sample {at} exceeds the measured level 1e-12 (property threshold 1e-6 not reached; pulse {a:e} at {k}, wire {wire})"
+        ));
     }
     Ok(())
 }
 
-fn block_signals(first: usize, len: usize, seed: u64) -> Box<verif::WireSignals> {
+/// noisy integer-rounded signals with 0..=2 pulses per wire on the block (first, len), written into `ws`
+fn block_signals(ws: &mut verif::WireSignals, first: usize, len: usize, seed: u64) {
     let mut r = Rng::new(seed ^ 0xB10C);
     let resp = verif::wire_response();
-    let mut ws = empty_wires();
     let style = r.below(4);
     let base = r.range(0, 120) as usize;
     for j in 0..len {
@@ -341,56 +403,358 @@ fn block_signals(first: usize, len: usize, seed: u64) -> Box<verif::WireSignals>
         }
         ws[w] = Some(s);
     }
-    ws
 }
 
-/// multi-wire block: one output channel per input channel (in ring order), output length = longest signal,
-/// outputs finite and >= 0; exact 2^k scaling of the whole block
-fn rel_block(first: usize, len: usize, seed: u64) -> Result<(), String> {
-    if first >= 256 || len == 0 || len > 256 {
-        return Err("bad case".into());
+// induction factors of wires.rs (NEIGHBOR_FACTORS): used only to SYNTHESISE the signals of the channel-identity
+// part of rel17block and of rel17event (Y = R * X * A); if they drift from the source the identity part fails
+const NEIGHBOR: [f64; 5] = [1.0, -0.1275, -0.0365, -0.012, -0.0042];
+
+/// distinguishable avalanches for the channel-identity part: for the block (first, len) choose on about half of
+/// the wires (always the two ends) ONE avalanche (time k_j, amplitude a_j), all different, and write the signals
+/// Y = R * X * A that such avalanches induce on the block (A = the banded matrix of wires.rs in block order)
+fn identity_signals(ws: &mut verif::WireSignals, start: usize, len: usize, n: usize, seed: u64) -> Vec<Option<(usize, f64)>> {
+    let mut r = Rng::new(seed ^ 0x1DE7);
+    let resp = verif::wire_response();
+    let x: Vec<Option<(usize, f64)>> = (0..len)
+        .map(|j| {
+            let (k, a) = (r.below((n - 17) as u64) as usize, 10.0 + 990.0 * unit(&mut r));
+            if j == 0 || j + 1 == len || r.chance(1, 2) {
+                Some((k, a))
+            } else {
+                None
+            }
+        })
+        .collect();
+    for j2 in 0..len {
+        let mut s = vec![0.0; n];
+        for j in j2.saturating_sub(4)..len.min(j2 + 5) {
+            if let Some((k, a)) = x[j] {
+                let f = a * NEIGHBOR[j.abs_diff(j2)];
+                for t in k..n.min(k + resp.len()) {
+                    s[t] += f * resp[t - k];
+                }
+            }
+        }
+        ws[(start + j2) % 256] = Some(s);
     }
-    let ws = block_signals(first, len, seed);
-    let longest = (0..len).map(|j| ws[(first + j) % 256].as_ref().unwrap().len()).max().unwrap();
-    let out = catch(AssertUnwindSafe(|| {
-        let ranges = verif::contiguous_ranges(&ws);
-        (ranges.clone(), ranges.iter().map(|r| verif::wire_range_deconvolution(&ws, *r)).collect::<Vec<_>>())
+    x
+}
+
+fn parse_blocks(s: &str) -> Option<Vec<(usize, usize)>> {
+    let mut v = vec![];
+    for e in s.split(',') {
+        let (a, b) = e.split_once('+')?;
+        v.push((a.parse().ok()?, b.parse().ok()?));
+    }
+    Some(v)
+}
+fn blocks_str(b: &[(usize, usize)]) -> String {
+    b.iter().map(|(f, l)| format!("{f}+{l}")).collect::<Vec<_>>().join(",")
+}
+/// the blocks are disjoint and no two of them touch (cyclically): they are exactly the maximal runs
+fn blocks_valid(b: &[(usize, usize)]) -> bool {
+    let mut present = [false; 256];
+    for &(first, len) in b {
+        if first >= 256 || len == 0 || len > 256 {
+            return false;
+        }
+        for j in 0..len {
+            if std::mem::replace(&mut present[(first + j) % 256], true) {
+                return false;
+            }
+        }
+    }
+    b.iter().all(|&(first, len)| len == 256 || (!present[(first + 255) % 256] && !present[(first + len) % 256]))
+}
+/// what contiguous_ranges must say for the block, and the wire of its column 0
+fn want_range(first: usize, len: usize) -> ((usize, usize), usize) {
+    if len == 256 {
+        ((0, 256), 0)
+    } else {
+        ((first, (first + len - 1) % 256 + 1), first)
+    }
+}
+type BlockOut = Vec<(usize, Vec<f64>)>;
+fn ranges_and_outputs(ws: &verif::WireSignals, blocks: &[(usize, usize)]) -> Result<Vec<BlockOut>, String> {
+    let (ranges, outs) = catch(AssertUnwindSafe(|| {
+        let ranges = verif::contiguous_ranges(ws);
+        (ranges.clone(), ranges.iter().map(|r| verif::wire_range_deconvolution(ws, *r)).collect::<Vec<_>>())
     }))
     .ok_or("panic")?;
-    let (ranges, outs) = out;
-    if ranges.len() != 1 {
-        return Err(format!("{} ranges for one block", ranges.len()));
+    if ranges.len() != blocks.len() {
+        return Err(format!("{} ranges for {} blocks", ranges.len(), blocks.len()));
     }
-    let want_range = if len == 256 { (0, 256) } else { (first, (first + len - 1) % 256 + 1) };
-    if ranges[0] != want_range {
-        return Err(format!("range {:?}, expected {:?}", ranges[0], want_range));
+    // the ranges come "in an arbitrary order": find each block's
+    let mut res = vec![];
+    for &(first, len) in blocks {
+        let (wr, _) = want_range(first, len);
+        let i = ranges.iter().position(|r| *r == wr).ok_or(format!("ranges {ranges:?}: {wr:?} is missing"))?;
+        res.push(outs[i].clone());
     }
-    let o = &outs[0];
-    if o.len() != len {
-        return Err(format!("{} output channels for {} input channels", o.len(), len));
+    Ok(res)
+}
+
+/// multi-wire blocks (one or several on the ring).
+///  shape:    the ranges found are the blocks; one output channel per input channel, in ring order from the first
+///            wire of the block; output length = longest signal of the block; outputs finite and >= 0;
+///  blocks:   with several blocks, each block's result is bit for bit what the block gives alone on the ring;
+///  scaling:  every sample of the ring * 2^k: every output * 2^k exactly (Cholesky solve included);
+///  identity: output column j comes from input column j: signals synthesised from one avalanche (k_j, a_j) per
+///            wire, all different, induced on the neighbours with the factors of wires.rs; output channel j must
+///            show a_j at k_j and nothing elsewhere (tolerance 1e-11 of the largest amplitude of the block)
+fn rel_block(seed: u64, blocks: &[(usize, usize)]) -> Result<(), String> {
+    if blocks.is_empty() || !blocks_valid(blocks) {
+        return Err("bad case".into());
     }
-    let start = if len == 256 { 0 } else { first };
-    for (j, (w, v)) in o.iter().enumerate() {
-        if *w != (start + j) % 256 {
-            return Err(format!("channel {j} is wire {w}"));
+    let mut ws = empty_wires();
+    for (b, &(first, len)) in blocks.iter().enumerate() {
+        block_signals(&mut ws, first, len, seed.wrapping_add(977 * b as u64));
+    }
+    let outs = ranges_and_outputs(&ws, blocks)?;
+    for (&(first, len), o) in blocks.iter().zip(&outs) {
+        let longest = (0..len).map(|j| ws[(first + j) % 256].as_ref().unwrap().len()).max().unwrap();
+        if o.len() != len {
+            return Err(format!("{} output channels for {} input channels", o.len(), len));
         }
-        good(v, longest).map_err(|e| format!("wire {w}: {e}"))?;
+        let (_, start) = want_range(first, len);
+        for (j, (w, v)) in o.iter().enumerate() {
+            if *w != (start + j) % 256 {
+                return Err(format!("channel {j} is wire {w}"));
+            }
+            good(v, longest).map_err(|e| format!("wire {w}: {e}"))?;
+        }
+        if blocks.len() > 1 {
+            let mut alone = empty_wires();
+            for j in 0..len {
+                alone[(first + j) % 256] = ws[(first + j) % 256].clone();
+            }
+            let oa = ranges_and_outputs(&alone, &[(first, len)])?;
+            if oa[0].len() != o.len() || !oa[0].iter().zip(o).all(|(a, b)| a.0 == b.0 && same_bits(&a.1, &b.1)) {
+                return Err(format!("block {first}+{len} alone gives another result than among the other blocks"));
+            }
+        }
     }
-    // scaling every sample of the block by 2^k scales every output by exactly 2^k (Cholesky solve included)
-    let c = 2f64.powi((seed % 41) as i32 - 20);
+    // scaling every sample by 2^k scales every output by exactly 2^k (Cholesky solve included)
+    let k = (seed % 41) as i32 - 20;
+    let c = pow2(k);
     let mut scaled = empty_wires();
-    for j in 0..len {
-        let w = (first + j) % 256;
-        scaled[w] = Some(ws[w].as_ref().unwrap().iter().map(|x| x * c).collect());
+    for w in 0..256 {
+        scaled[w] = ws[w].as_ref().map(|s| s.iter().map(|x| x * c).collect());
     }
-    let o2 = catch(AssertUnwindSafe(|| verif::wire_range_deconvolution(&scaled, ranges[0]))).ok_or("panic (scaled)")?;
-    for ((w, v), (w2, v2)) in o.iter().zip(&o2) {
-        let want: Vec<f64> = v.iter().map(|x| x * c).collect();
-        if w != w2 || !same_bits(&want, v2) {
-            return Err(format!("wire {w}: outputs of the block scaled by {c:e} are not scaled exactly"));
+    let outs2 = ranges_and_outputs(&scaled, blocks).map_err(|e| format!("scaled: {e}"))?;
+    for (o, o2) in outs.iter().zip(&outs2) {
+        for ((w, v), (w2, v2)) in o.iter().zip(o2) {
+            let want: Vec<f64> = v.iter().map(|x| x * c).collect();
+            if w != w2 || !same_bits(&want, v2) {
+                return Err(format!("wire {w}: outputs of the block scaled by 2^{k} are not scaled exactly"));
+            }
+        }
+    }
+    // identity of the channels
+    let n = 40 + (seed % 60) as usize;
+    let mut ws = empty_wires();
+    let mut xs = vec![];
+    for (b, &(first, len)) in blocks.iter().enumerate() {
+        let (_, start) = want_range(first, len);
+        xs.push(identity_signals(&mut ws, start, len, n, seed.wrapping_add(31 * b as u64)));
+    }
+    let outs = ranges_and_outputs(&ws, blocks).map_err(|e| format!("identity: {e}"))?;
+    for (x, o) in xs.iter().zip(&outs) {
+        let amax = x.iter().flatten().map(|p| p.1).fold(0.0, f64::max);
+        let tol = BLOCK_IDENTITY_TOL * amax;
+        for (xj, (w, v)) in x.iter().zip(o) {
+            for (t, y) in v.iter().enumerate() {
+                let want = match xj {
+                    Some((k, a)) if *k == t => *a,
+                    _ => 0.0,
+                };
+                if !((y - want).abs() <= tol) {
+                    return Err(format!(
+                        "identity: wire {w} sample {t}: {y:e} where the avalanche put on THIS wire gives {want:e} (tolerance {tol:e})"
+                    ));
+                }
+            }
         }
     }
     Ok(())
+}
+/// measured: every deviation below 1e-14 of the largest amplitude of the block (114 blocks of the quick tier hold
+/// at 1e-14, 100 of them fail at 1e-16); three orders of margin
+const BLOCK_IDENTITY_TOL: f64 = 1e-11;
+
+// ---------------------------------------------------------------------------------------------
+// event level: MainEvent::avalanches() under multiplication of EVERY calibrated sample by 2^k
+
+type WireList = Vec<(usize, Vec<f64>)>;
+type PadList = Vec<(usize, usize, Vec<f64>)>;
+const EVENT_SHAPES: u64 = 7;
+
+/// synthetic event: response-shaped pulses on several wires (induced on the present neighbours), a matching
+/// three-row pad pattern one sample EARLIER than the wire pulse (DESIGN A.11: the pad grid starts at offset 3),
+/// a few columns, optional noise.
+///  shape 0: isolated single wires; 1: one block of 2..=12 wires; 2: a block across the 255/0 seam;
+///        3: a seam block and further multi-wire blocks; 4: a long block (30..=90 wires) and a single wire;
+///        5: all 256 wires; 6: two blocks separated by one absent wire
+fn event_signals(shape: u64, seed: u64) -> (WireList, PadList) {
+    let mut r = Rng::new(seed ^ 0xE7E17);
+    let wr = verif::wire_response();
+    let pr = verif::pad_response();
+    let n = r.range(60, 120) as usize;
+    let mut runs: Vec<(usize, usize)> = vec![];
+    match shape % EVENT_SHAPES {
+        0 => {
+            let mut pos = r.below(256) as usize;
+            for _ in 0..r.range(2, 5) {
+                runs.push((pos % 256, 1));
+                pos += r.range(2, 50) as usize;
+            }
+        }
+        1 => runs.push((r.below(256) as usize, r.range(2, 12) as usize)),
+        2 => {
+            let (a, b) = (r.range(1, 6) as usize, r.range(1, 6) as usize);
+            runs.push((256 - a, a + b));
+        }
+        3 => {
+            let (a, b) = (r.range(1, 6) as usize, r.range(1, 6) as usize);
+            runs.push((256 - a, a + b));
+            let mut pos = b + r.range(1, 30) as usize;
+            for _ in 0..r.range(1, 3) {
+                let len = r.range(2, 10) as usize;
+                if pos + len + 1 >= 256 - a {
+                    break;
+                }
+                runs.push((pos, len));
+                pos += len + r.range(1, 60) as usize;
+            }
+        }
+        4 => {
+            let (first, len) = (r.below(256) as usize, r.range(30, 90) as usize);
+            runs.push((first, len));
+            runs.push(((first + len + r.range(1, 100) as usize) % 256, 1));
+        }
+        5 => runs.push((0, 256)),
+        _ => {
+            let (first, l1, l2) = (r.below(256) as usize, r.range(1, 9) as usize, r.range(1, 9) as usize);
+            runs.push((first, l1));
+            runs.push(((first + l1 + 1) % 256, l2));
+        }
+    }
+    let mut present = [false; 256];
+    for &(s, l) in &runs {
+        for j in 0..l {
+            present[(s + j) % 256] = true;
+        }
+    }
+    let pl: Vec<usize> = (0..256).filter(|w| present[*w]).collect();
+    let mut wires: Vec<Option<Vec<f64>>> = (0..256).map(|w| present[w].then(|| vec![0.0; n])).collect();
+    let mut pads: std::collections::BTreeMap<(usize, usize), Vec<f64>> = Default::default();
+    let shared_t = r.range(3, (n - 20) as u64) as usize;
+    for _ in 0..r.range(2, 6) {
+        let w = r.pick(&pl);
+        let t0 = if r.chance(1, 2) { shared_t } else { r.range(3, (n - 20) as u64) as usize };
+        let a = amplitude(&mut r);
+        for d in -4i64..=4 {
+            let w2 = (w as i64 + d).rem_euclid(256) as usize;
+            if let Some(s) = wires[w2].as_mut() {
+                let f = a * NEIGHBOR[d.unsigned_abs() as usize];
+                for t in t0..n.min(t0 + wr.len()) {
+                    s[t] += f * wr[t - t0];
+                }
+            }
+        }
+        if r.chance(7, 8) {
+            let c = verif::wire_to_pad_column(w);
+            let row = r.range(1, 574) as usize;
+            let pa = a * (0.5 + unit(&mut r));
+            let (f, l) = (0.2 + 0.4 * unit(&mut r), 0.2 + 0.4 * unit(&mut r));
+            for (rw, amp) in [(row - 1, pa * f), (row, pa), (row + 1, pa * l)] {
+                let s = pads.entry((c, rw)).or_insert_with(|| vec![0.0; n]);
+                for t in t0 - 1..n.min(t0 - 1 + pr.len()) {
+                    s[t] += amp * pr[t - (t0 - 1)];
+                }
+            }
+        }
+    }
+    // noise: none / small / larger with a gain-like factor per channel (calibrated samples are not integers)
+    let noise = r.pick(&[0.0, 0.0, 0.3, 3.0]);
+    let channel = |s: &mut Vec<f64>, r: &mut Rng| {
+        if noise > 0.0 {
+            let gain = 0.8 + 0.4 * unit(r);
+            for x in s.iter_mut() {
+                *x = (*x + noise * (2.0 * unit(r) - 1.0)) * gain;
+            }
+        }
+    };
+    let mut wl = vec![];
+    for (w, s) in wires.into_iter().enumerate() {
+        if let Some(mut s) = s {
+            channel(&mut s, &mut r);
+            wl.push((w, s));
+        }
+    }
+    let mut pdl = vec![];
+    for ((c, rw), mut s) in pads {
+        channel(&mut s, &mut r);
+        pdl.push((c, rw, s));
+    }
+    (wl, pdl)
+}
+
+fn event_avalanches(w: &WireList, p: &PadList, c: f64) -> Option<Vec<Avalanche>> {
+    let sc = |s: &Vec<f64>| s.iter().map(|x| x * c).collect::<Vec<f64>>();
+    let w: WireList = w.iter().map(|(i, s)| (*i, sc(s))).collect();
+    let p: PadList = p.iter().map(|(a, b, s)| (*a, *b, sc(s))).collect();
+    catch(AssertUnwindSafe(move || MainEvent::verif_from_signals(w, p, 0).avalanches()))
+}
+/// avalanches of the event scaled by 2^k against the avalanches of the event: Ok(number of avalanches)
+fn event_scaled_exactly(w: &WireList, p: &PadList, base: &[Avalanche], k: i32) -> Result<usize, String> {
+    let c = pow2(k);
+    let a1 = event_avalanches(w, p, c).ok_or(format!("panic (scaled by 2^{k})"))?;
+    if a1.len() != base.len() {
+        return Err(format!("{} avalanches, {} after scaling by 2^{k}", base.len(), a1.len()));
+    }
+    for (i, (a, b)) in base.iter().zip(&a1).enumerate() {
+        let same = |x: f64, y: f64| x.to_bits() == y.to_bits();
+        let what = if !same(a.t.get::<second>(), b.t.get::<second>()) {
+            "t"
+        } else if !same(a.phi.get::<radian>(), b.phi.get::<radian>()) {
+            "wire (phi)"
+        } else if !same(a.z.get::<meter>(), b.z.get::<meter>()) {
+            "z"
+        } else if !same(a.wire_amplitude * c, b.wire_amplitude) {
+            "wire_amplitude"
+        } else if !same(a.pad_amplitude * c, b.pad_amplitude) {
+            "pad_amplitude"
+        } else {
+            continue;
+        };
+        return Err(format!(
+            "avalanche {i} of {}: {what} changes under scaling by 2^{k}: t {:e} phi {:e} z {:e} wire {:e} pad {:e} -> t {:e} phi {:e} z {:e} wire {:e} pad {:e}",
+            base.len(),
+            a.t.get::<second>(), a.phi.get::<radian>(), a.z.get::<meter>(), a.wire_amplitude, a.pad_amplitude,
+            b.t.get::<second>(), b.phi.get::<radian>(), b.z.get::<meter>(), b.wire_amplitude, b.pad_amplitude
+        ));
+    }
+    Ok(base.len())
+}
+fn rel_event(shape: u64, seed: u64, k: i32) -> Result<usize, String> {
+    let (w, p) = event_signals(shape, seed);
+    let base = event_avalanches(&w, &p, 1.0).ok_or("panic")?;
+    event_scaled_exactly(&w, &p, &base, k)
+}
+/// measurement aid: the largest interval lo..=hi around 0 on which the event scales exactly
+fn event_scan(shape: u64, seed: u64) -> String {
+    let (w, p) = event_signals(shape, seed);
+    let Some(base) = event_avalanches(&w, &p, 1.0) else { return "panic".into() };
+    let (mut lo, mut hi) = (0, 0);
+    while lo > -1100 && event_scaled_exactly(&w, &p, &base, lo - 1).is_ok() {
+        lo -= 1;
+    }
+    while hi < 1100 && event_scaled_exactly(&w, &p, &base, hi + 1).is_ok() {
+        hi += 1;
+    }
+    let why = |k: i32| event_scaled_exactly(&w, &p, &base, k).err().unwrap_or_default();
+    format!("{} avalanches; exact for k in {lo}..={hi}; {} | {}", base.len(), why(lo - 1), why(hi + 1))
 }
 
 /// table facts used by C17_isolated_pulse_exact(_Q) and by the assert of the routine: every response
@@ -621,21 +985,34 @@ pub fn run(tier: &str, seed: u64, s: &mut Sink) {
             emit_rel(s, format!("rel17prop {kind} {}", fhex(&sig)), "rel-finite-nonneg-length");
             emit_rel(s, format!("rel17plain {kind} {}", fhex(&sig)), "rel-equals-plain");
             let k = r.range(0, 40) as i32 - 20;
-            emit_rel(s, format!("rel17scale {kind} {k} {}", fhex(&sig)), "rel-scale");
+            emit_scale(s, kind, k, "s", &sig);
         }
     }
+    // --- scale covariance tied to the theorem's hypothesis: in-domain waveforms, every k of -20..=20 (the
+    //     predicate MUST hold), then |k| up to and beyond the boundary kmax = 500 of the theorem and of binary64
     for k in -20..=20 {
         for kind in ["w", "p"] {
             let (resp, _) = resp_of(kind);
             let n = length(&mut r);
             let (sig, _) = pulses(&mut r, &resp, n);
-            emit_rel(s, format!("rel17scale {kind} {k} {}", fhex(&sig)), "rel-scale");
+            emit_scale(s, kind, k, "s", &sig);
         }
     }
-    // isolated pulse at several ring positions
-    let ring: Vec<usize> = if thorough { (0..256).collect() } else { vec![0, 1, 15, 16, 127, 128, 254, 255] };
-    for &w in &ring {
-        for _ in 0..(if thorough { 6 } else { 12 }) {
+    for _ in 0..(if thorough { 12 } else { 2 }) {
+        for kabs in [21, 50, 100, 200, 300, 400, 440, 460, 480, 490, 499, 500, 501, 520, 600, 1000, 1022, 1023, 1024, 1080] {
+            for k in [kabs, -kabs] {
+                for kind in ["w", "p"] {
+                    let (resp, _) = resp_of(kind);
+                    let n = length(&mut r).min(300);
+                    let (sig, _) = pulses(&mut r, &resp, n);
+                    emit_scale(s, kind, k, if kabs > 500 { "u" } else { "a" }, &sig);
+                }
+            }
+        }
+    }
+    // isolated pulse on a single-wire block at EVERY ring position
+    for w in 0..256usize {
+        for _ in 0..(if thorough { 6 } else { 2 }) {
             let n = r.range(18, 700) as usize;
             let k = match r.below(4) {
                 0 => 0,
@@ -646,7 +1023,11 @@ pub fn run(tier: &str, seed: u64, s: &mut Sink) {
             emit_rel(s, format!("rel17pulse {w} {n} {k} {:016x}", a.to_bits()), "rel-isolated-pulse");
         }
     }
-    // multi-wire blocks of every length at seam positions
+    // multi-wire blocks.  thorough: EVERY length 1..=256 at: both ends of the ring (first wire 0; last wire 255),
+    // crossing the seam by one wire on either side, centred on the seam, two random positions; for lengths <= 32
+    // additionally at EVERY seam-crossing position.  quick: 21 lengths (1..=10, 16, 17, 100, 255, 256, six random)
+    // at the same five fixed positions.  Then rings with two or three blocks (one of them across the seam in
+    // half of the cases; blocks separated by a single absent wire).
     let lens: Vec<usize> = if thorough {
         (1..=256).collect()
     } else {
@@ -657,17 +1038,90 @@ pub fn run(tier: &str, seed: u64, s: &mut Sink) {
         v
     };
     for &len in &lens {
-        let mut firsts = vec![0usize, 256 - len.min(255), (256 - len / 2) % 256, 255];
+        let mut firsts = vec![0usize, (256 - len) % 256, (257 - len) % 256, 255, (256 - len / 2) % 256];
         if thorough {
             firsts.push(r.below(256) as usize);
             firsts.push(r.below(256) as usize);
+            if len <= 32 {
+                firsts.extend(257 - len..=255);
+            }
         }
+        firsts.sort();
         firsts.dedup();
         for first in firsts {
             let sd = r.next() >> 16;
-            emit_rel(s, format!("rel17block {first} {len} {sd}"), "rel-block-shape");
+            emit_rel(s, format!("rel17block {sd} {first}+{len}"), if len == 1 { "rel-block-single" } else { "rel-block" });
         }
     }
+    for i in 0..(if thorough { 150 } else { 16 }) {
+        let nb = 2 + (i % 3 == 2) as usize;
+        let mut blocks = vec![];
+        // first block: across the seam in half of the cases (a wires before it, b after); `pos` = first absent wire
+        let mut pos = if i % 2 == 0 {
+            let (a, b) = (r.range(1, 10) as usize, r.range(1, 10) as usize);
+            blocks.push((256 - a, a + b));
+            b
+        } else {
+            let (f0, l0) = (r.below(40) as usize, r.range(1, 20) as usize);
+            blocks.push((f0, l0));
+            f0 + l0
+        };
+        for _ in 1..nb {
+            // `gap` absent wires, then the next block (stays below wire 230)
+            let gap = if r.chance(1, 3) { 1 } else { r.range(1, 60) as usize };
+            let len = r.range(1, 24) as usize;
+            blocks.push((pos + gap, len));
+            pos += gap + len;
+        }
+        let sd = r.next() >> 16;
+        emit_rel(s, format!("rel17block {sd} {}", blocks_str(&blocks)), "rel-block-several");
+    }
+    // event level: every k of -20..=20 on a few events of every shape, and larger |k| inside the interval measured
+    // to be safe for these events (see EVENT_BIG_K)
+    for shape in 0..EVENT_SHAPES {
+        let nev = if thorough { 12 } else if shape == 5 { 1 } else { 2 };
+        for _ in 0..nev {
+            let sd = r.next() >> 16;
+            for k in (-20..=20).chain(EVENT_BIG_K) {
+                if k != 0 {
+                    emit_event(s, shape, sd, k);
+                }
+            }
+        }
+        for _ in 0..(if thorough { 200 } else { 20 }) {
+            let sd = r.next() >> 16;
+            let k = if r.chance(1, 4) { r.pick(&EVENT_BIG_K) } else { r.range(0, 40) as i32 - 20 };
+            emit_event(s, shape, sd, if k == 0 { 7 } else { k });
+        }
+    }
+}
+/// |k| far beyond -20..=20, near the limit of binary64: measured on these synthetic events (7 shapes x 40 events,
+/// scan of k with rel17eventscan) the event-level relation holds for every k of -475..=495 at least; beyond, an
+/// intermediate underflows (first * last of the centroid, squares of tiny residuals) or overflows (middle^2, the
+/// sum of squared residuals) and z or the choice of the grid point changes.  2400 further events at k = -450, -440,
+/// 470, 480: all exact.
+const EVENT_BIG_K: [i32; 8] = [-440, -400, -300, -100, 100, 300, 400, 470];
+
+fn emit_scale(s: &mut Sink, kind: &str, k: i32, want: &str, sig: &[f64]) {
+    let (line, exact) = scale_line(kind, k, want, sig);
+    let o = observe_line(&line).unwrap();
+    let label = if k.abs() <= 20 {
+        "rel-scale-k20"
+    } else if k.abs() > 500 {
+        if exact { "rel-scale-beyond-kmax-exact" } else { "rel-scale-beyond-kmax-inexact" }
+    } else if exact {
+        "rel-scale-bigk-exact"
+    } else {
+        "rel-scale-bigk-inexact"
+    };
+    s.put(&line, &o, label, true);
+}
+fn emit_event(s: &mut Sink, shape: u64, seed: u64, k: i32) {
+    let r = rel_event(shape, seed, k);
+    // non-trivial: the event has avalanches
+    let nontrivial = matches!(r, Ok(n) if n > 0);
+    let label = format!("rel-event-shape{shape}{}", if k.abs() > 20 { "-bigk" } else { "" });
+    s.put(&format!("rel17event {shape} {seed} {k}"), &verdict(r.map(|_| ())), &label, nontrivial);
 }
 
 /// implementation observation for a case line of this module (None: not one of mine)
@@ -688,21 +1142,30 @@ pub fn observe_line(line: &str) -> Option<String> {
             let Some(sig) = parse_floats(t[2]) else { return bad() };
             Some(verdict(if t[0] == "rel17prop" { rel_prop(t[1], &sig) } else { rel_plain(t[1], &sig) }))
         }
-        "rel17scale" if t.len() == 4 => {
-            let (Ok(k), Some(sig)) = (t[2].parse::<i32>(), parse_floats(t[3])) else { return bad() };
-            Some(verdict(rel_scale(t[1], k, &sig)))
+        "rel17scale" if t.len() == 7 => {
+            let (Ok(k), Some(resp), Some(sig)) = (t[2].parse::<i32>(), parse_floats(t[5]), parse_floats(t[6])) else { return bad() };
+            Some(observe_scale(t[1], k, t[4], &resp, &sig))
         }
         "rel17pulse" if t.len() == 5 => {
             let p = |s: &str| s.parse::<usize>().ok();
             let (Some(w), Some(n), Some(k), Some(a)) = (p(t[1]), p(t[2]), p(t[3]), parse_floats(t[4])) else { return bad() };
+            if a.len() != 1 {
+                return bad();
+            }
             Some(verdict(rel_pulse(w, n, k, a[0])))
         }
         "rel17table" if t.len() == 1 => Some(verdict(rel_table())),
-        "rel17block" if t.len() == 4 => {
-            let (Ok(f), Ok(l), Ok(sd)) = (t[1].parse::<usize>(), t[2].parse::<usize>(), t[3].parse::<u64>()) else {
-                return bad();
-            };
-            Some(verdict(rel_block(f, l, sd)))
+        "rel17block" if t.len() == 3 => {
+            let (Ok(sd), Some(b)) = (t[1].parse::<u64>(), parse_blocks(t[2])) else { return bad() };
+            Some(verdict(rel_block(sd, &b)))
+        }
+        "rel17event" if t.len() == 4 => {
+            let (Ok(sh), Ok(sd), Ok(k)) = (t[1].parse::<u64>(), t[2].parse::<u64>(), t[3].parse::<i32>()) else { return bad() };
+            Some(verdict(rel_event(sh, sd, k).map(|_| ())))
+        }
+        "rel17eventscan" if t.len() == 3 => {
+            let (Ok(sh), Ok(sd)) = (t[1].parse::<u64>(), t[2].parse::<u64>()) else { return bad() };
+            Some(event_scan(sh, sd))
         }
         _ => None,
     }
